@@ -9,7 +9,7 @@
 //                                                       (or timer batch) since which the scenario logged something (sem mode)
 //   "<i> D <actor>"                                     the actor finished its script
 //   "<i> END <clock> <cap...>"                          Engine::run() returned
-// stdin: per scenario a line "sem <c0> <c1> ..." | "cv <ncv>" | "bar <n0> <n1> ...", then one line per actor with tokens, then "--":
+// stdin: per scenario a line "sem <c0> <c1> ..." | "cv <ncv>" | "bar <n0> <n1> ... [nosweep]", then one line per actor with tokens, then "--":
 //   all modes: S<k> sleep k time units (unit = 2^-10 s, exactly representable, so that dates tie exactly), Y yield
 //   sem: A<s> acquire, T<s>:<t> acquire_timeout, R<s> release, C<s> get_capacity, X<v> kill actor v if it is blocked in an acquire
 //   cv:  L<v> lock mutex v, U<v> unlock, W<v> wait, F<v>:<t> wait_for, G<v>:<k> wait_until(date k units; "+k" = k units from now), N<v> notify_one, B<v> notify_all
@@ -37,6 +37,9 @@ struct Scn {
   std::vector<sg4::ActorPtr> actors;
   std::vector<char> blocked; // actor a is inside an acquire/acquire_timeout call (set before the call, cleared after the return)
   bool dirty = false;        // something was logged since the last K line
+  bool sweep = true;         // bar mode: complete trailing groups with helper actors once the scripts are stuck
+  std::vector<unsigned> sizes, arrivals; // bar mode: size of each barrier, number of wait() calls issued so far
+  size_t done = 0, helpers = 0;
   std::vector<std::vector<std::string>> scripts;
 };
 static std::vector<std::unique_ptr<Scn>> scns;
@@ -204,10 +207,36 @@ static void run_bar(Scn& sc, size_t a, const std::vector<std::string>& ops)
     if (k == 'S') {
       sg4::this_actor::sleep_for(b * UNIT);
     } else if (k == 'B') {
+      sc.arrivals[b]++;
       printf("%d Q %zu B %d - %.17g\n", i, a, b, clk());
       int r = sc.bars[b]->wait();
       printf("%d A %zu B %d %d %.17g 0\n", i, a, b, r, clk());
     }
+  }
+}
+
+// An actor blocked for ever on a barrier makes the simulation end with the kernel killing it, which is not what C07 is about: once
+// every scripted actor is done or stuck, helper actors (numbered after the scripted ones, logged like them) arrive on the barriers
+// whose last group is incomplete. Until then (64 time units, longer than any script) the incomplete group must stay blocked.
+static void run_sweeper(Scn& sc)
+{
+  auto hosts = sg4::Engine::get_instance()->get_all_hosts();
+  while (true) {
+    sg4::this_actor::sleep_for(64 * UNIT);
+    bool any = false;
+    for (size_t b = 0; b < sc.bars.size(); b++) {
+      unsigned r = sc.arrivals[b] % sc.sizes[b];
+      for (unsigned j = r; r != 0 && j < sc.sizes[b]; j++) {
+        any      = true;
+        size_t a = sc.scripts.size() + sc.helpers++;
+        hosts[a % hosts.size()]->add_actor("helper", [&sc, a, b]() {
+          run_bar(sc, a, {"B" + std::to_string(b)});
+          printf("%d D %zu\n", sc.id, a);
+        });
+      }
+    }
+    if (not any && sc.done == sc.scripts.size())
+      return;
   }
 }
 
@@ -236,7 +265,13 @@ int main(int argc, char** argv)
       cur->id   = static_cast<int>(scns.size()) - 1;
       cur->mode = toks[0];
       for (size_t j = 1; j < toks.size(); j++) {
+        if (toks[j] == "nosweep") {
+          cur->sweep = false;
+          continue;
+        }
         int x = std::stoi(toks[j]);
+        cur->sizes.push_back(x);
+        cur->arrivals.push_back(0);
         if (cur->mode == "sem")
           cur->sems.push_back(sg4::Semaphore::create(x));
         else if (cur->mode == "bar")
@@ -265,9 +300,12 @@ int main(int argc, char** argv)
         else
           run_bar(*sc, a, sc->scripts[a]);
         sc->dirty = true;
+        sc->done++;
         printf("%d D %zu\n", sc->id, a);
       }));
     }
+    if (sc->mode == "bar" && sc->sweep)
+      hosts[h++ % hosts.size()]->add_actor("sweeper", [sc]() { run_sweeper(*sc); });
   }
   simgrid::verif::on_kernel_quiescent = quiescent;
   e.run();
